@@ -27,6 +27,8 @@ CHECKS = {
          'warning-state history simulation (persistent showwarning hook, no catch_warnings in the harness) + analytic reference model'),
  'C18': ('Seeded schedules of 2-4 producer tasks pushing frames (float32/float64/integer, constant frames, offsets up to 1e3 x spread, arrays and images) into one or two running accumulators in one session, with reads interleaved at arbitrary points: after every read the accumulator must equal the batch mean / population std of exactly the frames pushed so far (tolerance scaled by the data dtype and conditioning), two push orders of one multiset must agree, and pushes / reads must never modify a frame. The normalise / background / crop / dead-pixel / detrend / centre-finder identities and metadata retention are evaluated on shared image objects in the same histories.', '5 C18',
          'streaming state machine vs batch reference model under seeded producer schedules + purity fingerprints'),
+ 'C14': ('Randomness behind a seam: holopy.core.prior.random is replaced by a simulator-owned recorder/feeder during sample(), so the arguments of every primitive draw are observed, Uniform/Gaussian samples must be the primitive output itself, every BoundedGaussian value must be a recorded draw inside the support with the requested shape (scalar for size=None), and under scripted adversarial-but-legal tail draws (chosen slots out of bounds for up to 8 rounds) sample() must return within a bounded number of primitive calls once the script ends (bounded liveness). Derived priors must combine the recorded base draws; generate_guess must equal the documented draw for a seed whatever foreign draws preceded it. Density / guess / scale / identity / rejection clauses are evaluated on the same histories.', '5 C14',
+         'RNG-seam simulation with scripted adversarial variates, bounded-liveness check, reference model of the samplers'),
 }
 
 def main():
